@@ -45,6 +45,10 @@ class LoopbackTransport(object):
         self.headers.pop()
 
     def request(self, host, handler, request_body, verbose=0):
+        during, self.during = getattr(self, "during", None), None
+        if during is not None:
+            # something the application does while this exchange is in progress (one-shot hook of the harness)
+            during()
         out = self.fx.dispatch(request_body)
         self.exchanges.append((request_body, out))
         return out
@@ -258,6 +262,13 @@ class Peer(object):
                     return
                 if action.get("send"):
                     conn.sendall(action["send"])
+                if action.get("then"):
+                    # a second part of the same reply, sent a little later (e.g. the final reply behind an interim one)
+                    _time.sleep(action["then"][0])
+                    try:
+                        conn.sendall(action["then"][1])
+                    except OSError:
+                        return
                 if action.get("close", False):
                     try:
                         conn.shutdown(_socket.SHUT_WR)
